@@ -161,7 +161,7 @@ def run(ctx):
     props = []
     for n in range(ctx.share(B['props'])):
         pg = gen.PropGen(rng, maxdepth=rng.randrange(1, 4), kw_names=0.2 if n % 5 == 0 else 0.0,
-                         max_width=rng.choice((2, 3, 5)))
+                         max_width=rng.choice((2, 3, 5)), const_preds=0.08)
         p, _, _ = pg.make(n=n)
         if rng.random() < 0.7:
             p = p[:3] + (p[3][:4] + ((gen.pick(rng, TIME_NUMS), gen.pick(rng, ('s', 'ms'))),),)
